@@ -81,6 +81,19 @@ structure Merger where
   mws : List Middleware
 deriving DecidableEq, Repr
 
+/-- how the error returned by a call on the commit path reaches the caller's own error result -/
+inductive ErrFlow where
+  | propagated   -- returned, or assigned to the error the function returns
+  | swallowed    -- assigned (e.g. to a shadowing variable) and never returned
+  | dropped      -- result not used
+deriving DecidableEq, Repr
+
+/-- a handler failure makes the whole block's event processing fail (so that `ProcessEvents` rolls the transaction
+back and finalization retries) iff every link of the chain handler → addStat → processEvent → WorkEvents → Work →
+worker → ProcessEvents propagates the error. -/
+def errorsPropagate (flows : List (String × String × ErrFlow)) : Bool :=
+  flows.all fun f => f.2.2 == .propagated
+
 /-- shape of the `TagAddBurnTicket` case of `addStat`. -/
 inductive TicketShape where
   | firstOnly   -- `edb.addBurnTicket((*bt)[0])`
